@@ -92,10 +92,10 @@ def pagerank[S](
     base_score = (1.0 - damping) / n
 
     iterations = 0
-    max_diff = float("inf")  # nothing measured yet (max_iter = 0 returns the uniform start as MAX_ITER)
+    diff = float("inf")  # nothing measured yet (max_iter = 0 returns the uniform start as MAX_ITER)
     for iterations in range(1, max_iter + 1):
         new_scores: dict[S, float] = {}
-        max_diff = 0.0
+        diff = 0.0  # total (L1) change: the iteration contracts in this norm, not in the largest single change
 
         # Handle dangling nodes (no outgoing edges) - distribute their rank
         dangling_sum = sum(scores[v] for v in node_list if outgoing_count[v] == 0)
@@ -105,14 +105,14 @@ def pagerank[S](
             # Sum contributions from nodes linking to v
             rank_sum = sum(scores[u] / outgoing_count[u] for u in incoming[v])
             new_scores[v] = base_score + damping * rank_sum + dangling_contrib
-            max_diff = max(max_diff, abs(new_scores[v] - scores[v]))
+            diff += abs(new_scores[v] - scores[v])
 
         scores = new_scores
 
-        if max_diff < tol:
-            return Result(scores, max_diff, iterations, n)
+        if diff < tol:
+            return Result(scores, diff, iterations, n)
 
-    return Result(scores, max_diff, iterations, n, Status.MAX_ITER)
+    return Result(scores, diff, iterations, n, Status.MAX_ITER)
 
 
 @with_rust_backend
